@@ -332,23 +332,29 @@ func (w *c13World) start(sb *submitter) {
 	s := w.s
 	sb.started = true
 	sb.startT = s.Now()
+	// half of the callers attach a cancellation cause of their own to the context (context.WithCancelCause /
+	// WithDeadlineCause): "that context's error" stays ctx.Err() - Canceled or DeadlineExceeded -, whatever the cause says
+	cause := kernel.HashChoice(s.Seed, "ctx-cause|"+sb.Party, 2) == 0
+	if cause {
+		s.Probe("ctx.with-cause")
+	}
 	switch sb.ctxKind {
 	case 0:
-		sb.ctx, sb.cancel = context.WithDeadline(w.ctx, time.Now().Add(sb.deadlineIn))
+		sb.ctx, sb.cancel = deadlineCtx(w.ctx, time.Now().Add(sb.deadlineIn), cause)
 		sb.deadlineT = sb.startT + sb.deadlineIn
 	case 1:
-		sb.ctx, sb.cancel = context.WithCancel(w.ctx)
+		sb.ctx, sb.cancel = cancelCtx(w.ctx, cause)
 	case 3:
-		sb.ctx, sb.cancel = context.WithCancel(w.ctx)
+		sb.ctx, sb.cancel = cancelCtx(w.ctx, cause)
 		sb.cancel()
 		sb.cancelT = sb.startT
 		s.Probe("ctx.ended-before-call")
 	case 4:
-		sb.ctx, sb.cancel = context.WithDeadline(w.ctx, time.Now().Add(-time.Second))
+		sb.ctx, sb.cancel = deadlineCtx(w.ctx, time.Now().Add(-time.Second), cause)
 		sb.deadlineT = sb.startT // the first instant at which the call can notice
 		s.Probe("ctx.ended-before-call")
 	default:
-		sb.ctx, sb.cancel = context.WithDeadline(w.ctx, time.Now().Add(sb.deadlineIn))
+		sb.ctx, sb.cancel = deadlineCtx(w.ctx, time.Now().Add(sb.deadlineIn), cause)
 		sb.deadlineT = sb.startT + sb.deadlineIn
 	}
 	sb.caller = sb.ctx
@@ -1214,4 +1220,23 @@ func (w *c13World) StateKey() string {
 		k += fmt.Sprintf("%s:%d;", sb.phase, min(sb.attempts, 6))
 	}
 	return fmt.Sprintf("%sJ=%v", k, w.J >= 0)
+}
+
+// errCallerCause is what cause-bearing caller contexts of this world give as their reason.
+var errCallerCause = errors.New("caller: time budget for this log is used up")
+
+// cancelCtx / deadlineCtx: a caller context, plain or (cause) carrying a cancellation cause of the caller's own.
+func cancelCtx(parent context.Context, cause bool) (context.Context, context.CancelFunc) {
+	if !cause {
+		return context.WithCancel(parent)
+	}
+	ctx, cancel := context.WithCancelCause(parent)
+	return ctx, func() { cancel(errCallerCause) }
+}
+
+func deadlineCtx(parent context.Context, d time.Time, cause bool) (context.Context, context.CancelFunc) {
+	if !cause {
+		return context.WithDeadline(parent, d)
+	}
+	return context.WithDeadlineCause(parent, d, errCallerCause)
 }
